@@ -55,6 +55,7 @@ def sig_alterations(rng, sig, curve):
         yield 'r=n', nn.to_bytes(32, 'big') + sig[32:]
         yield 's=n', sig[:32] + nn.to_bytes(32, 'big')
         yield 'swapped-halves', sig[32:] + sig[:32]
+        yield 's-negated', sig[:32] + ((nn - int.from_bytes(sig[32:], 'big')) % nn).to_bytes(32, 'big')     # the other root: (r, n - s)
 
 
 def pt_verify(key, sig_b58, msg):
